@@ -145,7 +145,47 @@ def range_format(rep):
                        queries=ex.queries + out["evaluations"])
 
 
+MIMES = ["text/plain", "text/plain; charset=utf-8", "multipart/form-data; boundary=abc123", "application/x-custom+json; a=b; c=\"d e\"",
+         "image/svg+xml", "application/octet-stream"]
+
+
+def content_type_witnesses(rep):
+    """real build: a content type keeps its meaning (type, subtype, suffix and every parameter) from the request header to the typed input
+    and from the typed output to the response header.  Not solver-decided: the text is handled by the mime crate."""
+    import re
+    import authfam as A  # noqa: F401
+    t0 = time.time()
+    scs = [{"config": {}, "request": {"method": "PUT", "uri": "/bkt/key", "headers": [["host", "localhost"], ["content-type", m], ["content-length", "1"]],
+                                      "body": "78"}} for m in MIMES]
+    scs += [{"config": {}, "request": {"method": meth, "uri": "/bkt/key", "headers": [["host", "localhost"]]}, "backend": {"output": {"fill": True}}}
+            for meth in ("GET", "HEAD")]
+    outs = replay.run_scenarios(scs)
+    rep.traces_validated += len(scs)
+    bad = []
+    for m, o in zip(MIMES, outs):
+        inp = [e.get("input", "") for e in o.get("events", []) if e["ev"] == "s3.put_object"]
+        mm = re.search(r'content_type: (?:Some\()?"((?:[^"\\]|\\.)*)"', inp[0]) if inp else None
+        got = mm.group(1).replace('\\"', '"') if mm else None
+        if got is None or got.replace(" ", "").lower() != m.replace(" ", "").lower():
+            bad.append("request Content-Type %r arrives at the backend as %r" % (m, got))
+    for o in outs[len(MIMES):]:
+        hs = [v for k, v in o.get("headers", []) if k.lower() == "content-type"]
+        if hs != ["text/plain; charset=utf-8"]:
+            bad.append("backend content type 'text/plain; charset=utf-8' is sent as %r" % (hs,))
+    if bad:
+        res = rep.violation("content-type", bad[0], rep.save_cex("content_type", bad), confirmed=True)
+        rep.obligation("content type witnesses", "replayer", res, time.time() - t0)
+    else:
+        rep.obligation("witnesses: %d content types (parameters, quoted values, structured suffixes) keep type, subtype and every parameter from the "
+                       "request header to the typed input; a parameterised content type returned by the backend is sent verbatim (GET, HEAD)" % len(MIMES),
+                       "replayer(not solver-decided)", "holds", time.time() - t0, queries=len(scs))
+
+
 def run(rep, tier):
+    try:
+        content_type_witnesses(rep)
+    except Exception as e:      # noqa: BLE001
+        rep.fail_inconclusive("content type witnesses: %r" % (e,))
     try:
         range_format(rep)
     except rsx.Unsupported as e:
@@ -158,5 +198,5 @@ def run(rep, tier):
     timestamp_witnesses(rep)
     rep.out("timestamp text: the time crate's formatter/parser exceed CBMC (OOM at 8 GB with one symbolic field) — decided only by "
             "the data-flow obligation + native sweep (ms of 3 seconds x 6 offsets x 3 formats); epoch-seconds formatting goes through f64; "
-            "mime/content types (third party parser, no harness finished); copy-source harnesses use concrete keys (a symbolic "
+            "mime/content types are validated by witnesses only (third party parser, no harness finished); copy-source harnesses use concrete keys (a symbolic "
             "byte makes urlencoding::decode fork beyond the cap); Range numbers of more than 8 digits")
